@@ -3,6 +3,7 @@ package main
 import (
 	"fmt"
 	"go/types"
+	"strconv"
 	"strings"
 
 	"golang.org/x/tools/go/ssa"
@@ -198,7 +199,7 @@ func (e *Exec) callStatic(st *State, fr *Frame, fn *ssa.Function, bindings, args
 		return nil, false
 	}
 	key := fnKey(fn)
-	if ct, ok := e.prog.contracts.Funcs[key]; ok && !ct.Inline && fn != e.fn {
+	if ct, ok := e.prog.contracts.Funcs[key]; ok && !ct.Inline && fn != e.fn && !e.inlineCallDirective(key) {
 		var names []string
 		for _, p := range fn.Params {
 			names = append(names, p.Name())
@@ -207,7 +208,19 @@ func (e *Exec) callStatic(st *State, fr *Frame, fn *ssa.Function, bindings, args
 		if !e.prog.staleContracts[key] {
 			snap := st.clone()
 			nobl := len(e.obls)
+			// a closure's contract may mention its captured variables
+			e.calleeFrame = nil
+			if len(fn.FreeVars) > 0 {
+				pf := &Frame{Fn: fn, Vals: map[ssa.Value]Value{}}
+				for j, fv := range fn.FreeVars {
+					if j < len(bindings) {
+						pf.Vals[fv] = bindings[j]
+					}
+				}
+				e.calleeFrame = pf
+			}
 			res, cerr := e.tryByContract(st, fr, key, ct, names, allArgs, resultType(c), instr)
+			e.calleeFrame = nil
 			if cerr == "" {
 				e.setResult(fr, ret, res, isDefer)
 				return nil, false
@@ -251,6 +264,22 @@ func (e *Exec) callStatic(st *State, fr *Frame, fn *ssa.Function, bindings, args
 	return nil, false
 }
 
+// inlineCallDirective reports whether the unit's contract asks for calls to
+// key to be executed through the callee's body (`inlinecall <callee>`): used
+// where a closure handed to the callee has preconditions over the callee's
+// arguments, which are then asserted at the closure's actual invocation.
+func (e *Exec) inlineCallDirective(key string) bool {
+	if e.contract == nil {
+		return false
+	}
+	for _, ic := range e.contract.InlineCalls {
+		if key == ic || strings.HasSuffix(key, "."+ic) {
+			return true
+		}
+	}
+	return false
+}
+
 // tryByContract is byContract with contract errors returned instead of raised.
 func (e *Exec) tryByContract(st *State, fr *Frame, key string, ct *Contract, names []string, args []Value, rt types.Type, instr ssa.Instruction) (res Value, cerr string) {
 	defer func() {
@@ -271,7 +300,8 @@ func (e *Exec) byContract(st *State, fr *Frame, key string, ct *Contract, names 
 	e.byContr[key] = true
 	e.ncalls++
 	callTag := fmt.Sprintf("c%d", e.ncalls)
-	env := &Env{e: e, st: st, old: st, vars: map[string]Value{}, pos: true, pkgName: ct.Pkg}
+	env := &Env{e: e, st: st, old: st, vars: map[string]Value{}, pos: true, pkgName: ct.Pkg, fr: e.calleeFrame}
+	calleeFrame := e.calleeFrame
 	for i, n := range names {
 		if i < len(args) {
 			env.vars[n] = args[i]
@@ -316,6 +346,14 @@ func (e *Exec) byContract(st *State, fr *Frame, key string, ct *Contract, names 
 		}
 		e.emit(st, name, "requires", rq.Labels, g, e.where(instr))
 		st.assume(g)
+	}
+	// direct call of a closure: its invariants over captured variables are preconditions here
+	if calleeFrame != nil {
+		for i, ci := range ct.CbInv {
+			g := env.evalBool(ci.E)
+			e.emit(st, fmt.Sprintf("%s/cbinv(%s)#%d", e.ordinalName(instr, "call"), short, i+1), "requires", ci.Labels, g, e.where(instr))
+			st.assume(g)
+		}
 	}
 	// closures passed for `callback` parameters: callback-invariant rule
 	type cbArg struct {
@@ -374,7 +412,7 @@ func (e *Exec) byContract(st *State, fr *Frame, key string, ct *Contract, names 
 	if rt != nil {
 		res = e.materialize(fmt.Sprintf("%s!%s.result", sanitize(key), callTag), rt)
 	}
-	post := &Env{e: e, st: st, old: pre, vars: map[string]Value{}, pos: false, pkgName: ct.Pkg, atCallSite: true}
+	post := &Env{e: e, st: st, old: pre, vars: map[string]Value{}, pos: false, pkgName: ct.Pkg, atCallSite: true, fr: calleeFrame}
 	for k, v := range env.vars {
 		post.vars[k] = v
 	}
@@ -393,6 +431,74 @@ func (e *Exec) byContract(st *State, fr *Frame, key string, ct *Contract, names 
 				post.vars[n] = res
 			}
 		}
+	}
+	// a closure that implements a function contract also guarantees that
+	// contract's postconditions (proved as its `implements` obligations)
+	rcs := ct.ResultContracts
+	type rcEnv struct {
+		rc  ResultContract
+		env *Env
+	}
+	var rcl []rcEnv
+	for _, rc := range rcs {
+		rcl = append(rcl, rcEnv{rc, post})
+	}
+	if ct.Implements != "" {
+		if impl := e.prog.contracts.Funcs[ct.Implements]; impl != nil {
+			ipost := &Env{e: e, st: st, old: pre, vars: map[string]Value{}, pos: false, pkgName: impl.Pkg, atCallSite: true}
+			pi := 0
+			for _, n := range impl.ParamNames {
+				if be, ok := ct.ImplBind[n]; ok {
+					benv := &Env{e: e, st: pre, old: pre, vars: map[string]Value{}, pos: true, pkgName: ct.Pkg, fr: calleeFrame}
+					ipost.vars[n] = benv.eval(be)
+					continue
+				}
+				if pi < len(args) {
+					ipost.vars[n] = args[pi]
+				}
+				pi++
+			}
+			ipost.bindResult(res)
+			for _, en := range impl.Ensures {
+				if !en.Try {
+					st.assume(ipost.evalBool(en.E))
+				}
+			}
+			for _, rc := range impl.ResultContracts {
+				rcl = append(rcl, rcEnv{rc, ipost})
+			}
+		}
+	}
+	// function-valued results that carry a function contract
+	for _, re := range rcl {
+		rc, post := re.rc, re.env
+		var rnames []string
+		if cfn := e.prog.funcs[key]; cfn != nil {
+			rs := cfn.Signature.Results()
+			for i := 0; i < rs.Len(); i++ {
+				rnames = append(rnames, rs.At(i).Name())
+			}
+		}
+		idx := resultIndexOf(rc.Result, rnames)
+		var gargs []Value
+		for _, a := range rc.Args {
+			gargs = append(gargs, post.eval(a))
+		}
+		tag := func(v Value) Value {
+			if vf, ok := v.(VFunc); ok {
+				vf.Contract = rc.Key
+				vf.GhostArgs = gargs
+				return vf
+			}
+			return v
+		}
+		if vt, ok := res.(VTuple); ok && idx >= 0 && idx < len(vt.E) {
+			vt.E[idx] = tag(vt.E[idx])
+			res = vt
+		} else if idx == 0 && res != nil {
+			res = tag(res)
+		}
+		post.bindResult(res)
 	}
 	for _, en := range ct.Ensures {
 		if en.Try {
@@ -462,6 +568,25 @@ func (e *Exec) byContract(st *State, fr *Frame, key string, ct *Contract, names 
 	return res
 }
 
+// resultIndexOf maps a result name of the contract language (result, resultN
+// or a named result) to its position.
+func resultIndexOf(name string, named []string) int {
+	if name == "result" {
+		return 0
+	}
+	if strings.HasPrefix(name, "result") {
+		if n, err := strconv.Atoi(name[6:]); err == nil {
+			return n
+		}
+	}
+	for i, n := range named {
+		if n == name {
+			return i
+		}
+	}
+	return -1
+}
+
 func (env *Env) bindResult(res Value) {
 	if res == nil {
 		return
@@ -526,6 +651,21 @@ func (e *Exec) havocRegion(st *State, r *Region, tag string) {
 // function-type contract (declared as `callback <name> ...` on the unit).
 func (e *Exec) callAbstract(st *State, fr *Frame, vf VFunc, args []Value, c *ssa.CallCommon, ret ssa.Value, instr ssa.Instruction, isDefer bool) (forks []*State, end bool) {
 	key := "funcvalue." + vf.Abstract
+	// a value obtained from a result declared `resultcontract`: apply that
+	// contract with its ghost parameters bound as recorded on the value
+	if vf.Contract != "" {
+		if ct, ok := e.prog.contracts.Funcs[vf.Contract]; ok {
+			names := append([]string(nil), ct.ParamNames...)
+			all := append(append([]Value(nil), vf.GhostArgs...), args...)
+			sig := c.Signature()
+			for i := 0; i < sig.Params().Len(); i++ {
+				names = append(names, sig.Params().At(i).Name())
+			}
+			res := e.byContract(st, fr, vf.Contract, ct, names, all, resultType(c), instr)
+			e.setResult(fr, ret, res, isDefer)
+			return nil, false
+		}
+	}
 	// contracts for function-typed values are keyed by the *type name* if named
 	if n := namedOf(vf.Typ); n != nil && n.Obj().Pkg() != nil {
 		tk := n.Obj().Pkg().Name() + "." + n.Obj().Name()
